@@ -16,9 +16,10 @@ Fail(st, c, d) == IF st.bad = "" THEN [st EXCEPT !.bad = c, !.detail = d] ELSE s
 
 \* the value a field takes when v is assigned to it (v abstract, as logged)
 \* a *fresh* message object assigned to a plain (implicit-presence) message field does not make it present
-Assigned(f, v) ==
+\* (a message type without fields is the exception: nothing could be assigned inside it, so giving one always means presence)
+Assigned(idx, f, v) ==
   IF v.k = "unset" THEN (IF f.card = "implicit" /\ f.kind \notin {"message", "wrap"} THEN DefaultOf(f) ELSE Unset)
-  ELSE IF v.k = "msg" /\ v.fresh /\ f.card = "implicit" THEN Unset
+  ELSE IF v.k = "msg" /\ v.fresh /\ f.card = "implicit" /\ idx[f.msg].names # {} THEN Unset
   ELSE Norm(v)
 SetVal(idx, ty, val, n, nv) ==
   LET sibs == idx[ty].sibs[n] IN
@@ -29,7 +30,7 @@ RECURSIVE ApplyKw(_, _, _, _)
 ApplyKw(idx, ty, val, kw) ==
   IF kw = <<>> THEN val
   ELSE LET n == kw[1][1]  f == idx[ty].byname[n] IN
-       ApplyKw(idx, ty, SetVal(idx, ty, val, n, Assigned(f, kw[1][2])), Tail(kw))
+       ApplyKw(idx, ty, SetVal(idx, ty, val, n, Assigned(idx, f, kw[1][2])), Tail(kw))
 
 \* field names with an occurrence of fitting wire type in b
 Touched(idx, ty, b) ==
@@ -66,7 +67,7 @@ SetIn(idx, ty, st, n, x, v) ==
       cur == st.val[n]
       inner == IF cur.k = "msg" THEN cur.m ELSE NormMsg(idx[f.msg].fresh)
       g == idx[f.msg].byname[x]
-      nm == SetVal(idx, f.msg, inner, x, Assigned(g, v))
+      nm == SetVal(idx, f.msg, inner, x, Assigned(idx, g, v))
   IN IF cur.k = "any" THEN st
      ELSE [st EXCEPT !.val = SetVal(idx, ty, st.val, n, [k |-> "msg", m |-> nm])]
 
@@ -78,7 +79,7 @@ Copiers == {"copy", "deepcopy", "pickle"}
 \* expected effect of one logged operation on the abstract state
 Effect(idx, ty, st, e) ==
   CASE e.op = "new" -> [InitAbs(idx, ty) EXCEPT !.val = ApplyKw(idx, ty, NormMsg(idx[ty].fresh), e.kw)]
-    [] e.op = "set" -> [st EXCEPT !.val = SetVal(idx, ty, st.val, e.f, Assigned(idx[ty].byname[e.f], e.v))]
+    [] e.op = "set" -> [st EXCEPT !.val = SetVal(idx, ty, st.val, e.f, Assigned(idx, idx[ty].byname[e.f], e.v))]
     [] e.op = "setin" -> SetIn(idx, ty, st, e.f, e.x, e.v)
     \* m.<f>.<x> = m.<f>.<x>: an assignment like any other (the sub-message becomes present), whatever object is assigned
     [] e.op = "selfin" -> LET cur == st.val[e.f]
